@@ -1064,8 +1064,11 @@ def g_life(rng, force_how=None):
 PRIMS = ["Lock", "RLock", "Semaphore", "BoundedSemaphore", "Condition", "Event", "Queue", "SimpleQueue"]
 
 
-def g_sem(rng):
-    """C13: creation / disposal of primitives and executors, every way of ending."""
+def g_sem(rng, pre_unlink=None):
+    """C13: creation / disposal of primitives and executors, every way of ending.
+    pre_unlink: some objects have their semaphore names removed behind their back right before they are released."""
+    if pre_unlink is None:
+        pre_unlink = rng.random() < 0.2
     ops = []
     live = []
     n = 0
@@ -1091,7 +1094,7 @@ def g_sem(rng):
             live.append(nm)
         elif r < 0.7:
             nm = live.pop(rng.randrange(len(live)))
-            ops.append({"op": "drop", "obj": nm})
+            ops.append({"op": "drop", "obj": nm, "pre_unlink": pre_unlink and rng.random() < 0.6})
         elif r < 0.85:
             ops.append({"op": "use_obj", "obj": rng.choice(live), "ctx": ctx, "how": rng.choice(["touch", "touch", "crash"])})
         else:
@@ -1122,7 +1125,7 @@ def g_sem(rng):
     released_all = False
     if ending in ("return", "crash_worker") and rng.random() < 0.7:
         for nm in live:
-            ops.append({"op": "drop", "obj": nm})
+            ops.append({"op": "drop", "obj": nm, "pre_unlink": pre_unlink and rng.random() < 0.6})
         live = []
         ops.append({"op": "forget", "ex": ["e"]})
         if not (use_exec and kind == "reusable"):
@@ -1132,7 +1135,7 @@ def g_sem(rng):
     prog = {"threads": [ops] + extra_threads, "end": end}
     if extra_threads:
         prog["barriers"] = {"first": 1 + len(extra_threads)}
-    meta = {"gen": "g_sem", "ctx": ctx, "ending": ending, "concurrent_first_use": bool(extra_threads), "use_exec": use_exec, "released_all": released_all, "crash": crash or any(o.get("how") == "crash" for o in ops)}
+    meta = {"gen": "g_sem", "ctx": ctx, "ending": ending, "concurrent_first_use": bool(extra_threads), "use_exec": use_exec, "released_all": released_all, "crash": crash or any(o.get("how") == "crash" for o in ops), "pre_unlink": bool(pre_unlink)}
     return prog, meta
 
 
